@@ -320,6 +320,14 @@ def entry_case(args) -> Dict[str, Any]:
         elif entry == "connect-positional":
             c = w.new_client(mid, 0, tc, name)
             c.connect(mmx.SERVER, lg, dm, am)
+        elif entry == "connect-again":
+            # the same object is already connected to this manager with the default options, then connect() is called with others
+            c = w.new_client(module_id=mid, timecode=tc, name=name)
+            c.connect(mmx.SERVER)
+            w.settle()
+            m.drain()
+            n0 = len(m.inbox)
+            c.connect(mmx.SERVER, logger_status=lg, daemon_status=dm, allow_multiple=am)
         else:
             if dm:
                 return {"problems": [], "skipped": True}
@@ -328,6 +336,17 @@ def entry_case(args) -> Dict[str, Any]:
             clx.quiet(c)
             w.real_clients.append(c)
         w.settle()
+        if entry == "connect-again":
+            # judged at the manager only (whether the library re-announces itself or keeps the connection is its own business)
+            mods = [mm for mm in w.mgr.modules.values() if mm.connected and mm is not w.mgr.mm_module and mm.mod_id == c.module_id]
+            if len(mods) != 1:
+                probs.append({"prop": "C06", "kind": "not-connected-after-second-connect", "entry": entry, "modules": len(mods)})
+            else:
+                got = (mods[0].name, int(mods[0].is_logger), int(mods[0].unique), int(mods[0].is_daemon))
+                want = (name_expected, int(lg), int(not am), int(dm))
+                if got != want:
+                    probs.append({"prop": "C06", "kind": "options-at-manager", "entry": entry, "want": list(want), "got": list(got)})
+            return {"problems": probs, "skipped": False}
         frames = w.sent_frames(c)
         v2 = [f for f in frames if f.msg_type == P.MT_CONNECT_V2]
         v1 = [f for f in frames if f.msg_type == P.MT_CONNECT]
@@ -575,7 +594,7 @@ def run(tier: str) -> int:
                 for how in ("refused-or-stays", "leaves"):
                     items.append(("incumbent", (tc, ikind, req, how)))
     n_entry = 0
-    for entry in ("connect", "connect-positional", "client_context"):
+    for entry in ("connect", "connect-positional", "client_context", "connect-again"):
         for mid in (0, 33, 5):  # 5 is listed in the core module-id table (QUICK_LOGGER): an empty name is filled in from it, a given name is kept
             for name in ("", "n"):
                 for lg, dm, am in itertools.product((False, True), repeat=3):
